@@ -273,9 +273,17 @@ def tagged_to_file(path, tag, dst, limit=None, every=1, offset=0):
 
 def load_known():
     p = os.path.join(VERIF, "known_findings.json")
-    if not os.path.exists(p):
-        return []
-    return json.load(open(p))["findings"]
+    out = []
+    if os.path.exists(p):
+        out = list(json.load(open(p))["findings"])
+    # per-property entries proposed by a check's author (known_findings.d/<ID>.json, same schema); additive:
+    # they are merged into known_findings.json when the check is registered
+    d = os.path.join(VERIF, "known_findings.d")
+    if os.path.isdir(d):
+        for f in sorted(os.listdir(d)):
+            if f.endswith(".json"):
+                out += json.load(open(os.path.join(d, f)))["findings"]
+    return out
 
 
 def finish(ctx, level, coverage, assumptions):
